@@ -140,7 +140,7 @@ def run_one(h, prop):
     prop.spec_lines.update(spec)
     prop.model_lines.update(model)
     cmp_ = engine.compare_history(h, ml, il, prop.in_projection, strict_image=getattr(prop, 'strict_image', False),
-                                   informational=getattr(prop, 'informational_ops', ()))
+                                   informational=getattr(prop, 'informational_ops', ()), claimed=getattr(prop, 'claimed_line', None))
     problems = [p for p in problems if p["kind"] == "impl"]
     finding = (prop.oracle(h, il_full if prop.oracle_beyond_limits else il) if not problems
                else {"reason": "implementation run did not finish", "index": len(il)})
@@ -297,7 +297,7 @@ def main():
         if lim is not None:
             stats["cut_at_limit"] = stats.get("cut_at_limit", 0) + 1
         cmp_ = engine.compare_history(h, ml, il, prop.in_projection, strict_image=getattr(prop, 'strict_image', False),
-                                   informational=getattr(prop, 'informational_ops', ()))
+                                   informational=getattr(prop, 'informational_ops', ()), claimed=getattr(prop, 'claimed_line', None))
         stats[cmp_["status"]] += 1
         stats["compared_calls"] += cmp_.get("compared", 0)
         stats["abs_only"] += cmp_.get("abs_only", 0)
